@@ -151,12 +151,13 @@ def discharge(ob, timeout_s=10.0, use_fallbacks=True):
         last = s
     if ext:
         # instances of the library lemma sum_eq (proved by the induction schema every run) for the SUM terms that occur
-        s = _solver(timeout_s * 1000, False)
-        s.add(*ob.hyps)
-        s.add(*ext)
-        s.add(neg)
-        if s.check() == z3.unsat:
-            return dict(verdict='discharged', backend='z3+sum_eq', time=time.time() - t0, model=None)
+        for mbqi in (True, False):
+            s = _solver(timeout_s * (3000 if mbqi else 1000), mbqi)
+            s.add(*ob.hyps)
+            s.add(*ext)
+            s.add(neg)
+            if s.check() == z3.unsat:
+                return dict(verdict='discharged', backend='z3+sum_eq' + ('+mbqi' if mbqi else ''), time=time.time() - t0, model=None)
         last = s
     if use_fallbacks:
         smt2 = last.to_smt2()
@@ -172,34 +173,47 @@ def discharge(ob, timeout_s=10.0, use_fallbacks=True):
 
 
 def sum_extensionality(ob):
-    """pairwise instances of sum_eq for the ground SUM(f, n) terms of an obligation (and of the same statement for MEDIAN(f, n),
-    the median of the first n cells, which holds by definition):
-    n1 == n2 and (forall 0 <= i < n1: f1[i] == f2[i])  ==>  SUM(f1, n1) == SUM(f2, n2)"""
-    found, seen = [], set()
+    """instances of sum_eq for ground SUM(f, n) terms of an obligation (and of the same statement for MEDIAN(f, n), the median of the
+    first n cells, which holds by definition):
+        n1 == n2 and (forall 0 <= i < n1: f1[i] == f2[i])  ==>  SUM(f1, n1) == SUM(f2, n2)
+    Goal-directed: every term of the goal is paired with every term (goal or hypotheses) of the same syntactic length; when the goal has
+    none, the hypotheses' terms are paired among themselves (small sets only)."""
+    def collect(exprs):
+        found, seen = [], set()
 
-    def walk(t):
-        if t.get_id() in seen or z3.is_quantifier(t):
-            return
-        seen.add(t.get_id())
-        if z3.is_app(t):
-            if t.decl().name() in ('SUM', 'MEDIAN') and t.num_args() == 2 and not any(x.get_id() == t.get_id() for x in found):
-                found.append(t)
-            for c in t.children():
-                walk(c)
-    for h in list(ob.hyps) + [ob.goal]:
-        if z3.is_expr(h):
-            walk(h)
-    out = []
-    if 2 <= len(found) <= 8:
-        for a in range(len(found)):
-            for b in range(a + 1, len(found)):
-                f1, n1 = found[a].arg(0), found[a].arg(1)
-                f2, n2 = found[b].arg(0), found[b].arg(1)
-                if f1.eq(f2) or found[a].decl().name() != found[b].decl().name():
-                    continue
-                i = z3.Int('sx!%d!%d' % (a, b))
-                out.append(z3.Implies(z3.And(n1 == n2, z3.ForAll([i], z3.Implies(z3.And(0 <= i, i < n1), z3.Select(f1, i) == z3.Select(f2, i)))),
-                                      found[a] == found[b]))
+        def walk(t):
+            if t.get_id() in seen or z3.is_quantifier(t):
+                return
+            seen.add(t.get_id())
+            if z3.is_app(t):
+                if t.decl().name() in ('SUM', 'MEDIAN') and t.num_args() == 2 and not any(x.get_id() == t.get_id() for x in found):
+                    found.append(t)
+                for c in t.children():
+                    walk(c)
+        for h in exprs:
+            if z3.is_expr(h):
+                walk(h)
+        return found
+    in_goal = collect([ob.goal])
+    everywhere = collect(list(ob.hyps) + [ob.goal])
+    if in_goal:
+        pairs = [(g, o) for g in in_goal for o in everywhere if g.get_id() != o.get_id()]
+    elif len(everywhere) <= 8:
+        pairs = [(everywhere[a], everywhere[b]) for a in range(len(everywhere)) for b in range(a + 1, len(everywhere))]
+    else:
+        pairs = []
+    out, done = [], set()
+    for ta, tb in pairs:
+        key = tuple(sorted((ta.get_id(), tb.get_id())))
+        if key in done or len(out) >= 60:
+            continue
+        done.add(key)
+        f1, n1, f2, n2 = ta.arg(0), ta.arg(1), tb.arg(0), tb.arg(1)
+        if f1.eq(f2) or ta.decl().name() != tb.decl().name():
+            continue
+        i = z3.Int('sx!%d' % len(out))
+        same_cells = z3.ForAll([i], z3.Implies(z3.And(0 <= i, i < n1), z3.Select(f1, i) == z3.Select(f2, i)))
+        out.append(z3.Implies(same_cells if n1.eq(n2) else z3.And(n1 == n2, same_cells), ta == tb))
     return out
 
 
